@@ -144,7 +144,7 @@ fn indep_root(w: usize, rootlen: usize, index: usize, leaf: &[u8], path: &[u8]) 
     })
 }
 
-fn completeness(ctx: &mut Ctx, ietf: bool, leaves: &[Hex], kind: &str) -> Res {
+pub fn completeness(ctx: &mut Ctx, ietf: bool, leaves: &[Hex], kind: &str) -> Res {
     let n = leaves.len();
     let mut tree = MerkleTree::new(ver(ietf));
     let b = match build_on(&mut tree, leaves) {
@@ -201,7 +201,7 @@ fn distinct(leaves: &[Hex]) -> bool {
 }
 
 /// Binding negatives for position i; `all_indices` = try every other in-range index (else a sample).
-fn binding(ctx: &mut Ctx, ietf: bool, leaves: &[Hex], i: usize, bit: u16, kind: &str) -> Res {
+pub fn binding(ctx: &mut Ctx, ietf: bool, leaves: &[Hex], i: usize, bit: u16, kind: &str) -> Res {
     let n = leaves.len();
     if n < 2 || !distinct(leaves) {
         return Ok(());
@@ -275,7 +275,7 @@ fn binding(ctx: &mut Ctx, ietf: bool, leaves: &[Hex], i: usize, bit: u16, kind: 
     Ok(())
 }
 
-fn reuse(ctx: &mut Ctx, ietf: bool, batches: &[Vec<Hex>], kind: &str) -> Res {
+pub fn reuse(ctx: &mut Ctx, ietf: bool, batches: &[Vec<Hex>], kind: &str) -> Res {
     let mut tree = MerkleTree::new(ver(ietf));
     let mut prev_n = 0usize;
     let mut nt = false;
